@@ -4,7 +4,9 @@ package c14
 import (
 	"bytes"
 	"crypto/sha256"
+	"encoding/base64"
 	"encoding/binary"
+	"encoding/hex"
 	"fmt"
 	"strings"
 	"testing"
@@ -35,6 +37,108 @@ type kcCase struct {
 	Creation  uint64 `json:"creation_ticks"`
 	Usage     uint8  `json:"usage"`  // 0xFF: leave the constructor's default
 	Source    int    `json:"source"` // -1: leave the default
+	// optional second, string-valued KeyUsage entry (LegacyUsage); at least 2 bytes, because a
+	// one-byte KeyUsage entry is by definition the numeric usage
+	Legacy vf.Hex `json:"legacy_usage,omitempty"`
+	// CustomKeyInformation as it stands in the blob (MS-ADTS 2.2.20.4: version, flags, then optionally
+	// volume type, supports-notification, FEK key version, strength (LE32), 10 reserved bytes, extended
+	// data); empty: the constructor's {version 1, flags 0}
+	CKI vf.Hex `json:"custom_key_information,omitempty"`
+}
+
+var defaultCKI = []byte{1, 0}
+
+func (c kcCase) cki() []byte {
+	if len(c.CKI) > 0 {
+		return c.CKI
+	}
+	return defaultCKI
+}
+
+// ckiStruct sets the library's structure field by field from the MS-ADTS layout (the harness's own
+// reading of the bytes, not the library's parser).
+func ckiStruct(raw []byte) key.CustomKeyInformation {
+	k := key.CustomKeyInformation{Version: int(raw[0]), RawBytesSize: uint32(len(raw))}
+	k.Flags.Value = raw[1]
+	if len(raw) >= 3 {
+		k.VolumeType.Value = raw[2]
+	}
+	if len(raw) >= 4 {
+		k.SupportsNotification = raw[3] != 0
+	}
+	if len(raw) >= 5 {
+		k.FekKeyVersion = raw[4]
+	}
+	if len(raw) >= 9 {
+		k.Strength.Value = binary.LittleEndian.Uint32(raw[5:9])
+	}
+	if len(raw) >= 19 {
+		k.Reserved = append([]byte{}, raw[9:19]...)
+	}
+	if len(raw) > 19 {
+		k.EncodedExtendedCKI = append([]byte{}, raw[19:]...)
+	}
+	return k
+}
+
+// compareCKI: the parsed structure against the bytes it was parsed from.
+func compareCKI(who string, got key.CustomKeyInformation, raw []byte) []vf.Finding {
+	var fs []vf.Finding
+	if out := got.ToBytes(); !bytes.Equal(out, raw) {
+		fs = append(fs, vf.F(who, "custom-key-information-not-preserved", "%x re-serialises as %x", raw, out))
+	}
+	want := ckiStruct(raw)
+	bad := func(field string, g, w any) {
+		fs = append(fs, vf.F(who, "custom-key-information-field-differs", "%s of %x: got %v want %v", field, raw, g, w))
+	}
+	if got.Version != want.Version {
+		bad("Version", got.Version, want.Version)
+	}
+	if got.Flags.Value != want.Flags.Value {
+		bad("Flags", got.Flags.Value, want.Flags.Value)
+	}
+	if len(raw) >= 3 && got.VolumeType.Value != want.VolumeType.Value {
+		bad("VolumeType", got.VolumeType.Value, want.VolumeType.Value)
+	}
+	if len(raw) >= 4 && got.SupportsNotification != want.SupportsNotification {
+		bad("SupportsNotification", got.SupportsNotification, want.SupportsNotification)
+	}
+	if len(raw) >= 5 && got.FekKeyVersion != want.FekKeyVersion {
+		bad("FekKeyVersion", got.FekKeyVersion, want.FekKeyVersion)
+	}
+	if len(raw) >= 9 && got.Strength.Value != want.Strength.Value {
+		bad("Strength", got.Strength.Value, want.Strength.Value)
+	}
+	if len(raw) >= 19 && !bytes.Equal(got.Reserved, want.Reserved) {
+		bad("Reserved", fmt.Sprintf("%x", got.Reserved), fmt.Sprintf("%x", want.Reserved))
+	}
+	if len(raw) > 19 && !bytes.Equal(got.EncodedExtendedCKI, want.EncodedExtendedCKI) {
+		bad("EncodedExtendedCKI", fmt.Sprintf("%x", got.EncodedExtendedCKI), fmt.Sprintf("%x", want.EncodedExtendedCKI))
+	}
+	return fs
+}
+
+// tracked is a caller-owned input buffer with sentinel-filled spare capacity: a decoder may keep
+// referring to it, it must not change it.
+type tracked struct{ buf, orig []byte }
+
+func track(in []byte) *tracked {
+	full := make([]byte, len(in)+8)
+	copy(full, in)
+	for i := len(in); i < len(full); i++ {
+		full[i] = 0xA5
+	}
+	return &tracked{buf: full[:len(in):len(full)], orig: append([]byte{}, full...)}
+}
+
+func (k *tracked) untouched(subject string, fs *[]vf.Finding) {
+	if now := k.buf[:cap(k.buf)]; !bytes.Equal(now, k.orig) {
+		d := 0
+		for d < len(now) && now[d] == k.orig[d] {
+			d++
+		}
+		*fs = append(*fs, vf.F(subject, "callee-modifies-callers-input", "the %d-byte input differs from what was passed, first at offset %d: %#x was %#x", len(k.buf), d, now[d], k.orig[d]))
+	}
 }
 
 func (c kcCase) material() kccrypto.RSAKeyMaterial {
@@ -48,12 +152,18 @@ func (c kcCase) build() (*keycredentiallink.KeyCredential, error) {
 	var dev guid.GUID
 	dev.FromRawBytes(append([]byte{}, c.Device...))
 	kc := keycredentiallink.NewKeyCredential(ver, id, mat, dev, kcutils.NewDateTime(c.LastLogon), kcutils.NewDateTime(c.Creation))
-	if c.Usage != 0xFF || c.Source >= 0 {
+	if c.Usage != 0xFF || c.Source >= 0 || len(c.Legacy) > 0 || len(c.CKI) > 0 {
 		if c.Usage != 0xFF {
 			kc.Usage = key.KeyUsage{Value: c.Usage}
 		}
 		if c.Source >= 0 {
 			kc.Source = key.KeySource(c.Source)
+		}
+		if len(c.Legacy) > 0 {
+			kc.LegacyUsage = string(c.Legacy)
+		}
+		if len(c.CKI) > 0 {
+			kc.CustomKeyInfo = ckiStruct(c.CKI)
 		}
 		kc.RawBytes = nil
 		kc.KeyHash = nil
@@ -103,6 +213,41 @@ func hashRegion(b []byte) (start int, stored []byte, ok bool) {
 	return 0, nil, false
 }
 
+// compareParsed: every field the statement lists, on a credential parsed from a blob of case c.
+func compareParsed(back *keycredentiallink.KeyCredential, c kcCase, wantID string, wantUsage uint8, wantSource key.KeySource) []vf.Finding {
+	var fs []vf.Finding
+	if back.Version.Value != c.Version {
+		fs = append(fs, vf.F("KeyCredential.FromBytes", "version-not-preserved", "%#x want %#x", back.Version.Value, c.Version))
+	}
+	if back.Identifier != wantID {
+		fs = append(fs, vf.F("KeyCredential.FromBytes", "identifier-not-preserved", "%q want %q", back.Identifier, wantID))
+	}
+	m := back.RawKeyMaterial
+	if m.Exponent != c.Exponent || !bytes.Equal(m.Modulus, c.Modulus) || !bytes.Equal(m.Prime1, c.Prime1) || !bytes.Equal(m.Prime2, c.Prime2) || m.KeySize != c.KeySize {
+		fs = append(fs, vf.F("KeyCredential.FromBytes", "key-material-not-preserved", "exp %d/%d modulus %d/%d bytes primes %d,%d/%d,%d keysize %d/%d", m.Exponent, c.Exponent, len(m.Modulus), len(c.Modulus), len(m.Prime1), len(m.Prime2), len(c.Prime1), len(c.Prime2), m.KeySize, c.KeySize))
+	}
+	if back.Usage.Value != wantUsage {
+		fs = append(fs, vf.F("KeyCredential.FromBytes", "usage-not-preserved", "%d want %d", back.Usage.Value, wantUsage))
+	}
+	if back.LegacyUsage != string(c.Legacy) {
+		fs = append(fs, vf.F("KeyCredential.FromBytes", "legacy-usage-not-preserved", "%q want %q", back.LegacyUsage, string(c.Legacy)))
+	}
+	if back.Source != wantSource {
+		fs = append(fs, vf.F("KeyCredential.FromBytes", "source-not-preserved", "%d want %d", back.Source, wantSource))
+	}
+	if !bytes.Equal(back.DeviceId.ToBytes(), c.Device) {
+		fs = append(fs, vf.F("KeyCredential.FromBytes", "device-id-not-preserved", "%x want %x", back.DeviceId.ToBytes(), []byte(c.Device)))
+	}
+	if back.LastLogonTime.ToTicks() != c.LastLogon || back.CreationTime.ToTicks() != c.Creation {
+		fs = append(fs, vf.F("KeyCredential.FromBytes", "timestamps-not-preserved", "%d,%d want %d,%d", back.LastLogonTime.ToTicks(), back.CreationTime.ToTicks(), c.LastLogon, c.Creation))
+	}
+	if !back.LastLogonTime.Time.Equal(kcutils.NewDateTime(c.LastLogon).Time) || !back.CreationTime.Time.Equal(kcutils.NewDateTime(c.Creation).Time) {
+		fs = append(fs, vf.F("KeyCredential.FromBytes", "timestamps-not-preserved", "time values differ"))
+	}
+	fs = append(fs, compareCKI("KeyCredential.FromBytes", back.CustomKeyInfo, c.cki())...)
+	return fs
+}
+
 func checkBlob(c kcCase) []vf.Finding {
 	kc, _ := c.build()
 	blob, err := kc.ToBytes()
@@ -127,36 +272,36 @@ func checkBlob(c kcCase) []vf.Finding {
 	if !kc.CheckIntegrity() {
 		fs = append(fs, vf.F("KeyCredential.CheckIntegrity", "fresh-credential-fails-own-check", ""))
 	}
+	// the optional entries as they stand in the blob
+	var usageEntries [][]byte
+	var ckiEntry []byte
+	for _, e := range es {
+		switch e.Type {
+		case 0x04:
+			usageEntries = append(usageEntries, e.Value)
+		case 0x07:
+			ckiEntry = e.Value
+		}
+	}
+	wantUsage := [][]byte{{kc.Usage.Value}}
+	if len(c.Legacy) > 0 {
+		wantUsage = append(wantUsage, c.Legacy)
+	}
+	if fmt.Sprintf("%x", usageEntries) != fmt.Sprintf("%x", wantUsage) {
+		fs = append(fs, vf.F("KeyCredential.ToBytes", "key-usage-entries-differ", "blob has %x want %x", usageEntries, wantUsage))
+	}
+	if !bytes.Equal(ckiEntry, c.cki()) {
+		fs = append(fs, vf.F("KeyCredential.ToBytes", "custom-key-information-entry-differs", "blob has %x want %x", ckiEntry, c.cki()))
+	}
 	// parse back
 	var back keycredentiallink.KeyCredential
-	if err := back.FromBytes(append([]byte{}, blob...)); err != nil {
+	arg := track(blob)
+	err = back.FromBytes(arg.buf)
+	arg.untouched("KeyCredential.FromBytes", &fs)
+	if err != nil {
 		return append(fs, vf.F("KeyCredential.FromBytes", "own-blob-rejected", "%v", err))
 	}
-	if back.Version.Value != c.Version {
-		fs = append(fs, vf.F("KeyCredential.FromBytes", "version-not-preserved", "%#x want %#x", back.Version.Value, c.Version))
-	}
-	if back.Identifier != kc.Identifier {
-		fs = append(fs, vf.F("KeyCredential.FromBytes", "identifier-not-preserved", "%q want %q", back.Identifier, kc.Identifier))
-	}
-	m := back.RawKeyMaterial
-	if m.Exponent != c.Exponent || !bytes.Equal(m.Modulus, c.Modulus) || !bytes.Equal(m.Prime1, c.Prime1) || !bytes.Equal(m.Prime2, c.Prime2) || m.KeySize != c.KeySize {
-		fs = append(fs, vf.F("KeyCredential.FromBytes", "key-material-not-preserved", "exp %d/%d modulus %d/%d bytes primes %d,%d/%d,%d keysize %d/%d", m.Exponent, c.Exponent, len(m.Modulus), len(c.Modulus), len(m.Prime1), len(m.Prime2), len(c.Prime1), len(c.Prime2), m.KeySize, c.KeySize))
-	}
-	if back.Usage.Value != kc.Usage.Value {
-		fs = append(fs, vf.F("KeyCredential.FromBytes", "usage-not-preserved", "%d want %d", back.Usage.Value, kc.Usage.Value))
-	}
-	if back.Source != kc.Source {
-		fs = append(fs, vf.F("KeyCredential.FromBytes", "source-not-preserved", "%d want %d", back.Source, kc.Source))
-	}
-	if !bytes.Equal(back.DeviceId.ToBytes(), c.Device) {
-		fs = append(fs, vf.F("KeyCredential.FromBytes", "device-id-not-preserved", "%x want %x", back.DeviceId.ToBytes(), []byte(c.Device)))
-	}
-	if back.LastLogonTime.ToTicks() != c.LastLogon || back.CreationTime.ToTicks() != c.Creation {
-		fs = append(fs, vf.F("KeyCredential.FromBytes", "timestamps-not-preserved", "%d,%d want %d,%d", back.LastLogonTime.ToTicks(), back.CreationTime.ToTicks(), c.LastLogon, c.Creation))
-	}
-	if !back.LastLogonTime.Time.Equal(kc.LastLogonTime.Time) || !back.CreationTime.Time.Equal(kc.CreationTime.Time) {
-		fs = append(fs, vf.F("KeyCredential.FromBytes", "timestamps-not-preserved", "time values differ"))
-	}
+	fs = append(fs, compareParsed(&back, c, kc.Identifier, kc.Usage.Value, kc.Source)...)
 	if !back.CheckIntegrity() {
 		fs = append(fs, vf.F("KeyCredential.CheckIntegrity", "parsed-credential-fails-check", ""))
 	}
@@ -195,8 +340,12 @@ func genKC(t *rapid.T) kcCase {
 		ml = rapid.IntRange(1, 300).Draw(t, "modLen")
 	}
 	c.Modulus = rapid.SliceOfN(rapid.Byte(), ml, ml).Draw(t, "modulus")
-	if c.Modulus[0] == 0 {
-		c.Modulus[0] = 0x80
+	// "all moduli": the byte string is what is stored, so leading zero bytes (the DER habit of a
+	// sign octet, or a short value in a fixed-size field) are part of it
+	if lz := rapid.IntRange(0, 15).Draw(t, "leadingZeros"); lz <= 2 {
+		for i := 0; i <= lz && i < ml; i++ {
+			c.Modulus[i] = 0
+		}
 	}
 	c.KeySize = uint32(ml * 8)
 	switch rapid.IntRange(0, 5).Draw(t, "primes") {
@@ -224,7 +373,42 @@ func genKC(t *rapid.T) kcCase {
 		c.Usage = rapid.SampledFrom([]uint8{0, 1, 2, 3, 4, 7, 8, 9}).Draw(t, "usage")
 		c.Source = rapid.IntRange(0, 1).Draw(t, "source")
 	}
+	if rapid.IntRange(0, 2).Draw(t, "legacy") == 0 {
+		if rapid.Bool().Draw(t, "legacyKnown") {
+			c.Legacy = []byte(rapid.SampledFrom([]string{"NGC", "FIDO", "FEK", "STK", "KeySigning"}).Draw(t, "legacyName"))
+		} else {
+			ll := rapid.IntRange(2, 24).Draw(t, "legacyLen")
+			c.Legacy = rapid.SliceOfN(rapid.Byte(), ll, ll).Draw(t, "legacyBytes")
+		}
+	}
+	if rapid.Bool().Draw(t, "customKeyInfo") {
+		c.CKI = genCKI(t)
+	}
 	return c
+}
+
+// genCKI draws a CustomKeyInformation of each length the format distinguishes: the two-byte short
+// form, the prefixes ending after volume type / notification flag / FEK version / strength /
+// the reserved bytes, and the full form with extended data. Version is 1 (the only one defined),
+// the notification byte is a boolean 0/1, flags use the two defined bits.
+func genCKI(t *rapid.T) []byte {
+	n := rapid.SampledFrom([]int{2, 3, 4, 5, 9, 19, 20, 0}).Draw(t, "ckiLen")
+	if n == 0 {
+		n = rapid.IntRange(21, 60).Draw(t, "ckiLong")
+	}
+	raw := rapid.SliceOfN(rapid.Byte(), n, n).Draw(t, "ckiBytes")
+	raw[0] = 1
+	raw[1] = byte(rapid.IntRange(0, 3).Draw(t, "ckiFlags"))
+	if n >= 3 && rapid.Bool().Draw(t, "ckiVolDefined") {
+		raw[2] &= 3
+	}
+	if n >= 4 {
+		raw[3] &= 1
+	}
+	if n >= 9 && rapid.Bool().Draw(t, "ckiStrengthDefined") {
+		raw[5], raw[6], raw[7], raw[8] = raw[5]%3, 0, 0, 0
+	}
+	return raw
 }
 
 func kcNontrivial(c kcCase) bool { return len(c.Modulus) >= 16 }
@@ -407,4 +591,219 @@ func TestDNWithBinaryCredential(t *testing.T) {
 		}
 		return nil
 	}, func(c flipCase) bool { return kcNontrivial(c.KC) })
+}
+
+// ---- blobs written by the harness ------------------------------------------------------------------------
+//
+// The blob of a case as MS-ADTS 2.2.20 lays it out, written without the library: version, then the
+// entries in increasing identifier order, BCRYPT_RSAKEY_BLOB key material with a four-byte exponent,
+// key id = SHA-256 of the key material, key hash = SHA-256 of everything after the hash entry.
+
+func refMaterial(c kcCase) []byte {
+	b := []byte("RSA1")
+	b = binary.LittleEndian.AppendUint32(b, c.KeySize)
+	b = binary.LittleEndian.AppendUint32(b, 4)
+	b = binary.LittleEndian.AppendUint32(b, uint32(len(c.Modulus)))
+	b = binary.LittleEndian.AppendUint32(b, uint32(len(c.Prime1)))
+	b = binary.LittleEndian.AppendUint32(b, uint32(len(c.Prime2)))
+	b = binary.BigEndian.AppendUint32(b, c.Exponent)
+	b = append(b, c.Modulus...)
+	b = append(b, c.Prime1...)
+	return append(b, c.Prime2...)
+}
+
+func (c kcCase) usageSource() (uint8, key.KeySource) {
+	u, s := key.KeyUsage_NGC, key.KeySource_AD
+	if c.Usage != 0xFF {
+		u = c.Usage
+	}
+	if c.Source >= 0 {
+		s = key.KeySource(c.Source)
+	}
+	return u, s
+}
+
+func refIdentifier(c kcCase) (raw []byte, text string) {
+	h := sha256.Sum256(refMaterial(c))
+	if c.Version == key.KeyCredentialVersion_2 {
+		return h[:], base64.StdEncoding.EncodeToString(h[:])
+	}
+	return h[:], hex.EncodeToString(h[:])
+}
+
+func refBlob(c kcCase) []byte {
+	ent := func(b []byte, typ byte, v []byte) []byte {
+		b = binary.LittleEndian.AppendUint16(b, uint16(len(v)))
+		b = append(b, typ)
+		return append(b, v...)
+	}
+	usage, source := c.usageSource()
+	var tail []byte
+	tail = ent(tail, 0x03, refMaterial(c))
+	tail = ent(tail, 0x04, []byte{usage})
+	if len(c.Legacy) > 0 {
+		tail = ent(tail, 0x04, c.Legacy)
+	}
+	tail = ent(tail, 0x05, []byte{byte(source)})
+	tail = ent(tail, 0x06, c.Device)
+	tail = ent(tail, 0x07, c.cki())
+	tail = ent(tail, 0x08, binary.LittleEndian.AppendUint64(nil, c.LastLogon))
+	tail = ent(tail, 0x09, binary.LittleEndian.AppendUint64(nil, c.Creation))
+	id, _ := refIdentifier(c)
+	hash := sha256.Sum256(tail)
+	b := binary.LittleEndian.AppendUint32(nil, c.Version)
+	b = ent(b, 0x01, id)
+	b = ent(b, 0x02, hash[:])
+	return append(b, tail...)
+}
+
+func diffAt(a, b []byte) int {
+	d := 0
+	for d < len(a) && d < len(b) && a[d] == b[d] {
+		d++
+	}
+	return d
+}
+
+func checkForeignBlob(c kcCase) []vf.Finding {
+	var fs []vf.Finding
+	blob := refBlob(c)
+	var kc keycredentiallink.KeyCredential
+	arg := track(blob)
+	err := kc.FromBytes(arg.buf)
+	arg.untouched("KeyCredential.FromBytes", &fs)
+	if err != nil {
+		return append(fs, vf.F("KeyCredential.FromBytes", "well-formed-blob-rejected", "%x: %v", blob, err))
+	}
+	_, id := refIdentifier(c)
+	usage, source := c.usageSource()
+	fs = append(fs, compareParsed(&kc, c, id, usage, source)...)
+	if !kc.CheckIntegrity() {
+		fs = append(fs, vf.F("KeyCredential.CheckIntegrity", "intact-blob-fails-check", "stored hash is the SHA-256 of the entries after it"))
+	}
+	again, err := kc.ToBytes()
+	if err != nil || !bytes.Equal(again, blob) {
+		d := diffAt(again, blob)
+		fs = append(fs, vf.F("KeyCredential.ToBytes", "reserialised-blob-differs", "err %v; %d vs %d bytes, first difference at %d: %x vs %x", err, len(again), len(blob), d, again[min(d, len(again)):min(d+4, len(again))], blob[min(d, len(blob)):min(d+4, len(blob))]))
+	}
+	arg.untouched("KeyCredential.CheckIntegrity/ToBytes", &fs)
+	// the library's own serialisation of the same credential is this blob too
+	if built, _ := c.build(); built != nil {
+		if own, err := built.ToBytes(); err == nil && !bytes.Equal(own, blob) {
+			d := diffAt(own, blob)
+			fs = append(fs, vf.F("KeyCredential.ToBytes", "blob-differs-from-ms-adts-layout", "%d vs %d bytes, first difference at %d: %x vs %x", len(own), len(blob), d, own[min(d, len(own)):min(d+4, len(own))], blob[min(d, len(blob)):min(d+4, len(blob))]))
+		}
+	}
+	return fs
+}
+
+func TestForeignBlob(t *testing.T) {
+	s := vf.Begin(t, P, "foreign-blob-roundtrip")
+	vf.Rapid(s, vf.N(3000, 45000), genKC, checkForeignBlob, func(c kcCase) bool {
+		return kcNontrivial(c) && (len(c.CKI) > 2 || len(c.Legacy) > 0 || c.Usage != 0xFF)
+	})
+}
+
+// ---- decoding into a credential that already holds one -----------------------------------------------
+//
+// FromBytes is a method on a variable the caller may reuse (a loop over the values of an
+// msDS-KeyCredentialLink attribute). What it yields for blob B must not depend on the blob A the
+// variable held before.
+
+type reuseCase struct {
+	A       kcCase `json:"previous"`
+	B       kcCase `json:"credential"`
+	Foreign bool   `json:"blobs_written_by_harness"`
+}
+
+func (c reuseCase) blobs() (a, b []byte, err error) {
+	if c.Foreign {
+		return refBlob(c.A), refBlob(c.B), nil
+	}
+	ka, _ := c.A.build()
+	kb, _ := c.B.build()
+	if a, err = ka.ToBytes(); err != nil {
+		return
+	}
+	b, err = kb.ToBytes()
+	return
+}
+
+func checkReuse(c reuseCase) []vf.Finding {
+	blobA, blobB, err := c.blobs()
+	if err != nil {
+		return []vf.Finding{vf.F("KeyCredential.ToBytes", "error", "%v", err)}
+	}
+	var fresh, used keycredentiallink.KeyCredential
+	if fresh.FromBytes(append([]byte{}, blobB...)) != nil || used.FromBytes(append([]byte{}, blobA...)) != nil {
+		return nil // acceptance is judged by the round-trip sub-checks
+	}
+	var fs []vf.Finding
+	who := "KeyCredential.FromBytes"
+	if err := used.FromBytes(append([]byte{}, blobB...)); err != nil {
+		return []vf.Finding{vf.F(who, "accepted-blob-rejected-on-used-receiver", "%v", err)}
+	}
+	dep := func(field string, format string, a ...any) {
+		fs = append(fs, vf.F(who, field+"-depends-on-previous-receiver-value", format, a...))
+	}
+	if used.Version.Value != fresh.Version.Value {
+		dep("version", "%#x, on a new variable %#x", used.Version.Value, fresh.Version.Value)
+	}
+	if used.Identifier != fresh.Identifier {
+		dep("identifier", "%q, on a new variable %q", used.Identifier, fresh.Identifier)
+	}
+	if !bytes.Equal(used.KeyHash, fresh.KeyHash) {
+		dep("key-hash", "%x, on a new variable %x", used.KeyHash, fresh.KeyHash)
+	}
+	um, fm := used.RawKeyMaterial, fresh.RawKeyMaterial
+	if um.Exponent != fm.Exponent || um.KeySize != fm.KeySize || !bytes.Equal(um.Modulus, fm.Modulus) || !bytes.Equal(um.Prime1, fm.Prime1) || !bytes.Equal(um.Prime2, fm.Prime2) {
+		dep("key-material", "exp %d/%d keysize %d/%d modulus %d/%d primes %d,%d/%d,%d bytes", um.Exponent, fm.Exponent, um.KeySize, fm.KeySize, len(um.Modulus), len(fm.Modulus), len(um.Prime1), len(um.Prime2), len(fm.Prime1), len(fm.Prime2))
+	}
+	if used.Usage.Value != fresh.Usage.Value {
+		dep("usage", "%d, on a new variable %d", used.Usage.Value, fresh.Usage.Value)
+	}
+	if used.LegacyUsage != fresh.LegacyUsage {
+		dep("legacy-usage", "%q, on a new variable %q (the variable held %q before)", used.LegacyUsage, fresh.LegacyUsage, string(c.A.Legacy))
+	}
+	if used.Source != fresh.Source {
+		dep("source", "%d, on a new variable %d", used.Source, fresh.Source)
+	}
+	if used.DeviceId != fresh.DeviceId {
+		dep("device-id", "%s, on a new variable %s", used.DeviceId.ToFormatD(), fresh.DeviceId.ToFormatD())
+	}
+	if used.LastLogonTime.Ticks != fresh.LastLogonTime.Ticks || used.CreationTime.Ticks != fresh.CreationTime.Ticks || !used.LastLogonTime.Time.Equal(fresh.LastLogonTime.Time) || !used.CreationTime.Time.Equal(fresh.CreationTime.Time) {
+		dep("timestamps", "%d,%d, on a new variable %d,%d", used.LastLogonTime.Ticks, used.CreationTime.Ticks, fresh.LastLogonTime.Ticks, fresh.CreationTime.Ticks)
+	}
+	if u, f := used.CustomKeyInfo.ToBytes(), fresh.CustomKeyInfo.ToBytes(); !bytes.Equal(u, f) {
+		dep("custom-key-information", "%x, on a new variable %x", u, f)
+	}
+	if u, f := used.CheckIntegrity(), fresh.CheckIntegrity(); u != f {
+		dep("integrity-verdict", "%v, on a new variable %v", u, f)
+	}
+	// the catch-all for state no comparison above looks at: with every field equal, the two variables
+	// must serialise alike (a field difference already reported implies a different blob)
+	ub, uerr := used.ToBytes()
+	fb, ferr := fresh.ToBytes()
+	if len(fs) == 0 && ((uerr == nil) != (ferr == nil) || !bytes.Equal(ub, fb)) {
+		d := diffAt(ub, fb)
+		dep("serialisation", "%d bytes (%v), on a new variable %d bytes (%v); first difference at %d", len(ub), uerr, len(fb), ferr, d)
+	}
+	return fs
+}
+
+func TestReceiverReuse(t *testing.T) {
+	s := vf.Begin(t, P, "receiver-reuse")
+	small := func(t *rapid.T) kcCase {
+		c := genKC(t)
+		if len(c.Modulus) > 128 {
+			c.Modulus = c.Modulus[:128]
+			c.KeySize = 1024
+		}
+		return c
+	}
+	vf.Rapid(s, vf.N(1500, 20000), func(t *rapid.T) reuseCase {
+		return reuseCase{A: small(t), B: small(t), Foreign: rapid.Bool().Draw(t, "foreign")}
+	}, checkReuse, func(c reuseCase) bool {
+		return kcNontrivial(c.A) && kcNontrivial(c.B) && !bytes.Equal(c.A.Modulus, c.B.Modulus)
+	})
 }
